@@ -11,6 +11,7 @@ pub fn run(which: &str) {
         "c20_history" => crate::c20::run(),
         "c05_fee" => crate::c05::run(),
         "c08_redeemers" => crate::c08::run(),
+        "c09_data" => crate::c08::run_c09(),
         _ => panic!("unknown scenario {which}"),
     }
 }
